@@ -21,12 +21,19 @@
                                  is proved inductive (the three C04_structural_invariant theorems); full statement:
                                  SaxRefine.prints_admitted_stmt
      C04_prints_admitted_checked(_init)  no premise: Inv is checked by `inv_b` before every step of the run
+     C04_prints_admitted         NO premise about runs: for every parsed, accepted, closed program passing the
+                                 computable checks rt_syn_ok and init_linear, every Async run prints labels that
+                                 Sax.v prints from sax_init p (the residue and Inv are derived from C01/C03's
+                                 invariant of the core fragment, proofs/SaxTyped.v); C04_prints_admitted_polarized:
+                                 also the synchronous polarized mode
    What rests on the correspondence only: that the real interpreter's prints and their order are the
    model's (suite `run`); results for programs with drop / split / multi-provider declarations; results in
-   the synchronous modes (agreement of the modes' print multisets is C03's); uniqueness of the multiset. *)
+   the non-polarized mode; uniqueness of the multiset. *)
 From stdpp Require Import gmap strings.
 Require Import Grits.Base Grits.Forms Grits.STypes Grits.Runtime.
 Require Import Grits.spec.Sax Grits.proofs.Causality Grits.proofs.SaxRefine Grits.proofs.SaxInv Grits.proofs.C04Examples.
+Require Import Grits.Expand Grits.TcTop Grits.spec.RtTyping Grits.spec.Topo Grits.proofs.RtTheorems Grits.proofs.RtTcSyn
+               Grits.proofs.TopoLin Grits.proofs.TopoStep Grits.proofs.TopoReach Grits.proofs.AsyncSync Grits.proofs.SaxTyped.
 
 Theorem C04_trace_causal : forall md (p : program) fuel pick r tr,
   exec_trace fuel pick md (p_types p) (p_funs p) (init_config p) [] = (r, tr) ->
@@ -62,7 +69,7 @@ Theorem C04_hb_is_the_checks_relation : forall md D F c0 tr cf,
 Proof. exact hb_py_equiv. Qed.
 
 Theorem C04_refines_sax : forall D F c self c',
-  Inv D c -> step Async D F c (Run self) = SStep c' ->
+  SaxRefine.Inv D c -> step Async D F c (Run self) = SStep c' ->
   exists ls, ((ls = [] /\ α c ≡ₚ α c') \/ sax_step F false (α c) ls (α c')) /\ labels c' = labels c ++ ls.
 Proof. exact refines_sax01. Qed.
 
@@ -81,6 +88,57 @@ Theorem C04_prints_admitted_partial : forall p : program,
       (labels (res_config (exec_run fuel pick Async (p_types p) (p_funs p) (init_config p)))) C'.
 Proof. exact prints_admitted_residue. Qed.
 
+(* ------------------------------------------------------------------ RESULTS without a premise about runs
+   (proofs/SaxTyped.v).  The residue `tres` and the whole local invariant Inv follow from the invariant
+   of the core fragment that C01 / C03 prove for every reachable configuration (cfg_typed + Topo +
+   LinCfg + CoreCfg + ns_ok: TopoReach.inv_reachable).  What is left are conditions on the PROGRAM,
+   all computable and evaluated per program by the check (`c04_premises_text`): closed (in_fragment),
+   rt_syn_ok (names as the parser makes them), init_linear (function and initial bodies in the core
+   fragment and affine, one provider per process, initial configuration a forest). *)
+Theorem C04_prints_admitted : forall txt p p',
+  parse_string txt = POk p -> typecheck p = Accept p' -> in_fragment p' -> rt_syn_ok p = true ->
+  init_linear p' ->
+  forall fuel pick, exists C',
+    sax_steps (p_funs p') false (sax_init p')
+      (labels (res_config (exec_run fuel pick Async (p_types p') (p_funs p') (init_config p')))) C'.
+Proof. exact prints_admitted_parsed. Qed.
+
+(* the same in both polarized modes: a synchronous rendezvous is two asynchronous steps *)
+Theorem C04_prints_admitted_polarized : forall md txt p p',
+  is_np md = false ->
+  parse_string txt = POk p -> typecheck p = Accept p' -> in_fragment p' -> rt_syn_ok p = true ->
+  init_linear p' ->
+  forall fuel pick, exists C',
+    sax_steps (p_funs p') false (sax_init p')
+      (labels (res_config (exec_run fuel pick md (p_types p') (p_funs p') (init_config p')))) C'.
+Proof. exact prints_admitted_parsed_md. Qed.
+
+(* with the premises as one computable verdict on the program text *)
+Theorem C04_prints_admitted_text : forall txt, c04_premises_text txt = true ->
+  exists p p', parse_string txt = POk p /\ typecheck p = Accept p' /\
+  forall fuel pick, exists C',
+    sax_steps (p_funs p') false (sax_init p')
+      (labels (res_config (exec_run fuel pick Async (p_types p') (p_funs p') (init_config p')))) C'.
+Proof. exact prints_admitted_text. Qed.
+
+Theorem C04_tres_from_typing : forall D F teq, teq_laws D teq -> funs_typed D F teq ->
+  forall Δ c, cfg_typed D F teq Δ c -> Topo c -> tres D c.
+Proof. exact tres_typed_topo. Qed.
+
+Theorem C04_core_invariant_gives_Inv : forall D F teq, teq_laws D teq -> funs_typed D F teq ->
+  forall c, TopoStep.Inv D F teq c -> SaxRefine.Inv D c.
+Proof. exact inv_sax_inv. Qed.
+
+Theorem C04_refines_sax_core : forall D F teq, teq_laws D teq -> funs_typed D F teq -> core_funs F -> funs_aff F ->
+  forall md c0 tr c, is_np md = false -> TopoStep.Inv D F teq c0 -> (md = Sync -> bufs_empty c0) ->
+  steps md D F c0 tr c ->
+  exists ls, sax_steps F false (α c0) ls (α c) /\ labels c = labels c0 ++ ls.
+Proof. exact refines_sax_core_md. Qed.
+
+(* SaxRefine.linear_program lies inside the core fragment of C03 (its `core_funs` and `CoreCfg` parts) *)
+Theorem C04_linear_program_core : forall p, linear_program p = true -> core_funs (p_funs p) /\ CoreCfg (init_config p).
+Proof. exact linear_program_core. Qed.
+
 Theorem C04_structural_invariant_init : forall p,
   linear_program p = true -> no_cids p = true -> ginv (U0 p) (init_config p).
 Proof. exact ginv_init. Qed.
@@ -90,12 +148,12 @@ Theorem C04_structural_invariant_step : forall U D F c self c',
   exists U' : list nat -> Prop, (forall x, U x -> U' x) /\ ginv U' c'.
 Proof. exact ginv_step. Qed.
 
-Theorem C04_structural_invariant_gives_Inv : forall U D c, ginv U c -> tres D c -> Inv D c.
+Theorem C04_structural_invariant_gives_Inv : forall U D c, ginv U c -> tres D c -> SaxRefine.Inv D c.
 Proof. exact ginv_Inv. Qed.
 
 Theorem C04_prints_admitted_if_inv_preserved : forall D F,
-  (forall c ch c', Inv D c -> step Async D F c ch = SStep c' -> Inv D c') ->
-  forall (p : program) fuel pick, Inv D (init_config p) ->
+  (forall c ch c', SaxRefine.Inv D c -> step Async D F c ch = SStep c' -> SaxRefine.Inv D c') ->
+  forall (p : program) fuel pick, SaxRefine.Inv D (init_config p) ->
   exists C', sax_steps F false (sax_init p)
                (labels (res_config (exec_run fuel pick Async D F (init_config p)))) C'.
 Proof. exact prints_admitted_partial. Qed.
@@ -115,12 +173,14 @@ Theorem C04_prints_admitted_checked_init : forall fuel pick (p : program) r,
   sax_steps (p_funs p) false (sax_init p) (labels (res_config r)) (α (res_config r)).
 Proof. exact prints_admitted_checked_init. Qed.
 
-Theorem C04_inv_checker_sound : forall D c, inv_b D c = true -> Inv D c.
+Theorem C04_inv_checker_sound : forall D c, inv_b D c = true -> SaxRefine.Inv D c.
 Proof. exact inv_b_sound. Qed.
 
 (* non-vacuity, on a concrete accepted program (text in proofs/C04Examples.v), by vm_compute *)
 Example C04_ex_accepted_linear : exists p', ex_prog = Some p' /\ linear_program p' = true.
 Proof. exact ex_accepted_linear. Qed.
+Example C04_ex_premises : c04_premises_text ex_text = true.
+Proof. vm_compute. reflexivity. Qed.
 Example C04_ex_no_cids : match ex_prog with Some p' => no_cids p' | None => false end = true.
 Proof. vm_compute. reflexivity. Qed.
 Example C04_ex_checked_run : checked_labels pick0 = Some ["echoed"; "done"; "succ"; "zero"].
@@ -147,6 +207,14 @@ Print Assumptions C04_hb_is_the_checks_relation.
 Print Assumptions C04_refines_sax.
 Print Assumptions C04_refines_sax_run.
 Print Assumptions C04_prints_admitted_partial.
+Print Assumptions C04_prints_admitted.
+Print Assumptions C04_prints_admitted_polarized.
+Print Assumptions C04_prints_admitted_text.
+Print Assumptions C04_tres_from_typing.
+Print Assumptions C04_core_invariant_gives_Inv.
+Print Assumptions C04_refines_sax_core.
+Print Assumptions C04_linear_program_core.
+Print Assumptions C04_ex_premises.
 Print Assumptions C04_structural_invariant_init.
 Print Assumptions C04_structural_invariant_step.
 Print Assumptions C04_structural_invariant_gives_Inv.
